@@ -160,6 +160,41 @@ func tmRow(r *rng, charset int) ([]byte, []tmRun, *tmRowSpec) {
 	return cells, runs, sp
 }
 
+// the structure of a row of stored cells: cells in front of the first start box, groups of attributes and of other
+// cells up to the end box, junk behind it (nil: no start box, or an attribute / start box behind the end box)
+func tmTokenize(cells []byte) *tmRowSpec {
+	attr := func(c byte) bool { return c < 8 || (c >= 0xc && c <= 0xf) }
+	i := bytes.IndexByte(cells, 0x0b)
+	if i < 0 {
+		return nil
+	}
+	sp := &tmRowSpec{Pre: append([]byte{}, cells[:i]...)}
+	rest := cells[i+1:]
+	if j := bytes.IndexByte(rest, 0x0a); j >= 0 {
+		sp.HasEnd = true
+		sp.End = append([]byte{}, rest[j+1:]...)
+		for _, c := range sp.End {
+			if attr(c) || c == 0x0b {
+				return nil
+			}
+		}
+		rest = rest[:j]
+	}
+	for k := 0; k < len(rest); {
+		var g tmSeg
+		for k < len(rest) && attr(rest[k]) {
+			g.Codes = append(g.Codes, rest[k])
+			k++
+		}
+		for k < len(rest) && !attr(rest[k]) {
+			g.Cells = append(g.Cells, rest[k])
+			k++
+		}
+		sp.Segs = append(sp.Segs, g)
+	}
+	return sp
+}
+
 // ---- units ------------------------------------------------------------------------------------------------
 
 func flipBit(r *rng, b byte) byte { return b ^ (1 << uint(r.intn(8))) }
@@ -564,10 +599,26 @@ func genTmCase(r *rng, wild bool) *tmCase {
 				u := tmRowUnit(r, mag, row, cells)
 				if parityCase && r.chance(1, 2) {
 					// a cell failing parity: it reaches the row parser as 0x00
-					kinds["parity-error"]++
-					k := r.intn(40)
-					u[6+k] = flipBit(r, u[6+k])
-					tc.Oracle = false // the expected runs are computed for intact cells
+					limit := 40
+					if j := bytes.IndexByte(cells, 0x0a); j >= 0 {
+						limit = j + 1 // up to and including the end box
+					}
+					stored := append([]byte{}, cells...)
+					for n := 1 + r.intn(3); n > 0; n-- {
+						k := r.intn(limit)
+						if stored[k] == 0 && cells[k] != 0 {
+							continue // already damaged
+						}
+						kinds["parity-error"]++
+						u[6+k] = flipBit(r, u[6+k])
+						stored[k] = 0
+					}
+					tc.Oracle = false // the expected runs of the Go ground truth are computed for intact cells
+					// for the Coq specification the row is what its stored cells say
+					if rsp = tmTokenize(stored); rsp == nil {
+						tc.SpecOK = false
+						rsp = &tmRowSpec{}
+					}
 				}
 				kinds["row"]++
 				op.rows[row] = runs
